@@ -14,6 +14,7 @@ from . import _partner as P
 ID = "C10"
 OPTIMISED_STRIDE = {"quick": 10, "thorough": 20}      # every k-th shard once more in an interpreter started with -O
 TRACE_STRIDE = {"quick": 10, "thorough": 20}      # every k-th shard once more with logging enabled down to TRACE
+BYTEORDER_STRIDE = {"quick": 10, "thorough": 20}      # every k-th shard once more with sys.byteorder reporting a big-endian host
 CHAIN_STRIDE = {'quick': 10, 'thorough': 30}      # every k-th shard is re-run in chains inside one process (non-initial process states)
 LEVEL = "fault_enumeration"
 ENGINE = "E2"
